@@ -244,136 +244,152 @@ func TestC03Font(t *testing.T) {
 			return
 		}
 
-		// independent implementation
-		xf, xerr := xsfnt.Parse(out)
-		if xerr != nil {
-			if len(f.CMapTable) == 0 || isUnsupported(xerr) {
-				labels = append(labels, "ximage-abstains")
-				stats.CaseIn("font", stats.Hash(out), true, func() string { return c.String() }, labels...)
-				return
-			}
-			t.Fatalf("x/image rejects Write output: %v\n%s\n%s", xerr, c, genfont.Dump(f))
-		}
-		var xb xsfnt.Buffer
-		if xf.NumGlyphs() != f.NumGlyphs() {
-			t.Fatalf("x/image NumGlyphs=%d want %d\n%s", xf.NumGlyphs(), f.NumGlyphs(), c)
-		}
-		if int(xf.UnitsPerEm()) != int(f.UnitsPerEm) {
-			t.Fatalf("x/image UnitsPerEm=%d want %d\n%s", xf.UnitsPerEm(), f.UnitsPerEm, c)
-		}
-		// character mapping: expected from the generated subtables via the
-		// library's documented preference is checked in C09; here the two
-		// implementations must agree on every rune any subtable maps.
-		best, _ := f.CMapTable.GetBest()
-		probe := []rune{0, 'A', 'H', 'x', 0x20, 0xFFFF, 0x10000, 0x10FFFF}
-		if best != nil {
-			lo, hi := best.CodeRange()
-			probe = append(probe, lo, hi, lo-1, hi+1)
-			for _, r := range []rune{'a', 'b', 'f', 'i', 'l', 'é', 'Ω', 0x0301, 0x2014, 0xFFFD, 0xFB01} {
-				probe = append(probe, r)
-			}
-			for r := rune(0x20); r < 0x180; r++ {
-				probe = append(probe, r)
-			}
-		}
-		// ppem = upm/64 pixels: one 26.6 unit per font unit, no rounding, no overflow in x/image's 32-bit scaling
-		ppem := fixed.Int26_6(int(f.UnitsPerEm))
-		if best != nil {
-			for _, r := range probe {
-				if r < 0 {
-					continue
-				}
-				want := best.Lookup(r)
-				got, err := xf.GlyphIndex(&xb, r)
-				if err != nil {
-					t.Fatalf("x/image GlyphIndex(%#x): %v", r, err)
-				}
-				if glyph.ID(got) != want {
-					t.Fatalf("GlyphIndex(%#x): x/image %d, font %d\n%s", r, got, want, c)
-				}
-			}
-		}
-		ww := f.Widths()
-		for gid := 0; gid < f.NumGlyphs(); gid++ {
-			adv, err := xf.GlyphAdvance(&xb, xsfnt.GlyphIndex(gid), ppem, font.HintingNone)
-			if err != nil {
-				t.Fatalf("x/image GlyphAdvance(%d): %v", gid, err)
-			}
-			if int(adv) != int(ww[gid]) {
-				t.Fatalf("GlyphAdvance(%d): x/image %d, font %v\n%s", gid, adv, ww[gid], c)
-			}
-		}
-		outlineChecked, outlineAbstain := 0, 0
-		switch o := f.Outlines.(type) {
-		case *glyf.Outlines:
-			if o.Names != nil {
-				for gid := range o.Glyphs {
-					nm, err := xf.GlyphName(&xb, xsfnt.GlyphIndex(gid))
-					if err != nil {
-						t.Fatalf("x/image GlyphName(%d): %v\n%s", gid, err, c)
-					}
-					if nm != o.Names[gid] {
-						t.Fatalf("GlyphName(%d): x/image %q, font %q\n%s", gid, nm, o.Names[gid], c)
-					}
-				}
-			}
-			for gid, g := range o.Glyphs {
-				if g == nil {
-					ss, err := xf.LoadGlyph(&xb, xsfnt.GlyphIndex(gid), ppem, nil)
-					if err != nil || len(ss) != 0 {
-						t.Fatalf("blank glyph %d: x/image gives %d segments, err=%v\n%s", gid, len(ss), err, c)
-					}
-					continue
-				}
-				if _, ok := g.Data.(glyf.SimpleGlyph); !ok {
-					outlineAbstain++
-					continue
-				}
-				// every simple glyph must load; the segments are compared
-				// where x/image's integer arithmetic is exact
-				ss, err := xf.LoadGlyph(&xb, xsfnt.GlyphIndex(gid), ppem, nil)
-				if err != nil {
-					if isUnsupported(err) {
-						outlineAbstain++
-						continue
-					}
-					t.Fatalf("x/image LoadGlyph(%d): %v\n%s", gid, err, c)
-				}
-				want, ok := expectPolyline(c.Points[gid])
-				if !ok {
-					outlineAbstain++
-					continue
-				}
-				if got := xSegments(ss); !segsEqual(got, want) {
-					t.Fatalf("glyph %d outline: x/image %v, generated %v\n%s", gid, got, want, c)
-				}
-				outlineChecked++
-			}
-		case *cff.Outlines:
-			for gid, g := range o.Glyphs {
-				want, ok := expectCFF(g)
-				if !ok {
-					outlineAbstain++
-					continue
-				}
-				ss, err := xf.LoadGlyph(&xb, xsfnt.GlyphIndex(gid), ppem, nil)
-				if err != nil {
-					if isUnsupported(err) {
-						outlineAbstain++
-						continue
-					}
-					t.Fatalf("x/image LoadGlyph(%d): %v\n%s\n%s", gid, err, c, g)
-				}
-				if got := xSegments(ss); !segsEqual(got, want) {
-					t.Fatalf("glyph %d outline: x/image %v, generated %v\n%s\n%s", gid, got, want, c, g)
-				}
-				outlineChecked++
-			}
+		outlineChecked, outlineAbstain := crossCheck(t, c, out)
+		if outlineChecked < 0 {
+			labels = append(labels, "ximage-abstains")
+			stats.CaseIn("font", stats.Hash(out), true, func() string { return c.String() }, labels...)
+			return
 		}
 		stats.LabelN("font", "outlines-compared", int64(outlineChecked))
 		stats.LabelN("font", "outlines-abstained", int64(outlineAbstain))
 		stats.CaseIn("font", stats.Hash(out), true, func() string { return c.String() }, labels...)
 	})
+}
+
+type fataler interface {
+	Fatalf(format string, args ...any)
+}
+
+// crossCheck reads a complete font file with the independent implementation
+// (x/image) and compares glyph count, units per em, character mapping,
+// advance widths, glyph names and outlines with the font value.  It returns
+// -1 when x/image abstains from the whole file.
+func crossCheck(t fataler, c *genfont.Case, out []byte) (outlineChecked, outlineAbstain int) {
+	f := c.Font
+	// independent implementation
+	xf, xerr := xsfnt.Parse(out)
+	if xerr != nil {
+		if len(f.CMapTable) == 0 || isUnsupported(xerr) {
+			return -1, 0
+		}
+		t.Fatalf("x/image rejects Write output: %v\n%s\n%s", xerr, c, genfont.Dump(f))
+	}
+	var xb xsfnt.Buffer
+	if xf.NumGlyphs() != f.NumGlyphs() {
+		t.Fatalf("x/image NumGlyphs=%d want %d\n%s", xf.NumGlyphs(), f.NumGlyphs(), c)
+	}
+	if int(xf.UnitsPerEm()) != int(f.UnitsPerEm) {
+		t.Fatalf("x/image UnitsPerEm=%d want %d\n%s", xf.UnitsPerEm(), f.UnitsPerEm, c)
+	}
+	// character mapping: expected from the generated subtables via the
+	// library's documented preference is checked in C09; here the two
+	// implementations must agree on every rune any subtable maps.
+	best, _ := f.CMapTable.GetBest()
+	probe := []rune{0, 'A', 'H', 'x', 0x20, 0xFFFF, 0x10000, 0x10FFFF}
+	if best != nil {
+		lo, hi := best.CodeRange()
+		probe = append(probe, lo, hi, lo-1, hi+1)
+		for _, r := range []rune{'a', 'b', 'f', 'i', 'l', 'é', 'Ω', 0x0301, 0x2014, 0xFFFD, 0xFB01} {
+			probe = append(probe, r)
+		}
+		for r := rune(0x20); r < 0x180; r++ {
+			probe = append(probe, r)
+		}
+	}
+	// ppem = upm/64 pixels: one 26.6 unit per font unit, no rounding, no overflow in x/image's 32-bit scaling
+	ppem := fixed.Int26_6(int(f.UnitsPerEm))
+	if best != nil {
+		for _, r := range probe {
+			if r < 0 {
+				continue
+			}
+			want := best.Lookup(r)
+			got, err := xf.GlyphIndex(&xb, r)
+			if err != nil {
+				t.Fatalf("x/image GlyphIndex(%#x): %v", r, err)
+			}
+			if glyph.ID(got) != want {
+				t.Fatalf("GlyphIndex(%#x): x/image %d, font %d\n%s", r, got, want, c)
+			}
+		}
+	}
+	ww := f.Widths()
+	for gid := 0; gid < f.NumGlyphs(); gid++ {
+		adv, err := xf.GlyphAdvance(&xb, xsfnt.GlyphIndex(gid), ppem, font.HintingNone)
+		if err != nil {
+			t.Fatalf("x/image GlyphAdvance(%d): %v", gid, err)
+		}
+		if int(adv) != int(ww[gid]) {
+			t.Fatalf("GlyphAdvance(%d): x/image %d, font %v\n%s", gid, adv, ww[gid], c)
+		}
+	}
+	switch o := f.Outlines.(type) {
+	case *glyf.Outlines:
+		if o.Names != nil {
+			for gid := range o.Glyphs {
+				nm, err := xf.GlyphName(&xb, xsfnt.GlyphIndex(gid))
+				if err != nil {
+					t.Fatalf("x/image GlyphName(%d): %v\n%s", gid, err, c)
+				}
+				if nm != o.Names[gid] {
+					t.Fatalf("GlyphName(%d): x/image %q, font %q\n%s", gid, nm, o.Names[gid], c)
+				}
+			}
+		}
+		for gid, g := range o.Glyphs {
+			if g == nil {
+				ss, err := xf.LoadGlyph(&xb, xsfnt.GlyphIndex(gid), ppem, nil)
+				if err != nil || len(ss) != 0 {
+					t.Fatalf("blank glyph %d: x/image gives %d segments, err=%v\n%s", gid, len(ss), err, c)
+				}
+				continue
+			}
+			if _, ok := g.Data.(glyf.SimpleGlyph); !ok {
+				outlineAbstain++
+				continue
+			}
+			// every simple glyph must load; the segments are compared
+			// where x/image's integer arithmetic is exact
+			ss, err := xf.LoadGlyph(&xb, xsfnt.GlyphIndex(gid), ppem, nil)
+			if err != nil {
+				if isUnsupported(err) {
+					outlineAbstain++
+					continue
+				}
+				t.Fatalf("x/image LoadGlyph(%d): %v\n%s", gid, err, c)
+			}
+			want, ok := expectPolyline(c.Points[gid])
+			if !ok {
+				outlineAbstain++
+				continue
+			}
+			if got := xSegments(ss); !segsEqual(got, want) {
+				t.Fatalf("glyph %d outline: x/image %v, generated %v\n%s", gid, got, want, c)
+			}
+			outlineChecked++
+		}
+	case *cff.Outlines:
+		for gid, g := range o.Glyphs {
+			want, ok := expectCFF(g)
+			if !ok {
+				outlineAbstain++
+				continue
+			}
+			ss, err := xf.LoadGlyph(&xb, xsfnt.GlyphIndex(gid), ppem, nil)
+			if err != nil {
+				if isUnsupported(err) {
+					outlineAbstain++
+					continue
+				}
+				t.Fatalf("x/image LoadGlyph(%d): %v\n%s\n%s", gid, err, c, g)
+			}
+			if got := xSegments(ss); !segsEqual(got, want) {
+				t.Fatalf("glyph %d outline: x/image %v, generated %v\n%s\n%s", gid, got, want, c, g)
+			}
+			outlineChecked++
+		}
+	}
+	return outlineChecked, outlineAbstain
 }
 
 var _ = sfnt.Read
